@@ -20,6 +20,11 @@ SYMBOLIC = ['amplgsl_sf_bessel_J0', 'amplgsl_sf_bessel_J1', 'amplgsl_sf_bessel_Y
             'amplgsl_sf_expint_E1', 'amplgsl_sf_expint_E2', 'amplgsl_sf_expint_Ei', 'amplgsl_sf_Si', 'amplgsl_sf_Ci', 'amplgsl_sf_expint_3',
             'amplgsl_sf_fermi_dirac_1', 'amplgsl_sf_fermi_dirac_2', 'amplgsl_sf_fermi_dirac_3half', 'amplgsl_sf_gamma', 'amplgsl_sf_psi_1',
             'amplgsl_cdf_ugaussian_P', 'amplgsl_ran_ugaussian_pdf']
+# two-argument bindings f(order, x) whose derivative is w.r.t. x only (the order must be constant): the order is a PARAMETER of the
+# symbol, `gsl_f(n + k, x)` becomes the one-argument symbol `gsl_f@k` applied to x; only derivs[1] and hes[2] are assigned
+ORDERED = ['amplgsl_sf_bessel_Jn', 'amplgsl_sf_bessel_Yn', 'amplgsl_sf_bessel_In', 'amplgsl_sf_bessel_Kn', 'amplgsl_sf_bessel_Kn_scaled',
+           'amplgsl_sf_fermi_dirac_int', 'amplgsl_sf_bessel_Jnu', 'amplgsl_sf_bessel_Ynu', 'amplgsl_sf_bessel_Inu', 'amplgsl_sf_bessel_Knu',
+           'amplgsl_sf_bessel_Knu_scaled']
 LIBM = {'exp': 'exp', 'log': 'log', 'sin': 'sin', 'cos': 'cos', 'sqrt': 'sqrt'}
 
 
@@ -41,7 +46,12 @@ def lean(e):
 
 
 class FFn:
-    def __init__(self, decl, nargs):
+    def __init__(self, decl, nargs, ordered=False):
+        self.ordered = ordered
+        self.order_vars = set()
+        self.result_sym = None
+        self.result_vars = set()
+        self.status_vars = set()
         self.decl = decl
         self.name = decl['name']
         self.nargs = nargs
@@ -88,6 +98,34 @@ class FFn:
         c = strip(kids(n)[0])
         return c.get('referencedDecl', {}).get('name') if c.get('kind') == 'DeclRefExpr' else None
 
+    def order_offset_init(self, n):
+        n0 = n
+        while n0.get('kind') in ('ImplicitCastExpr', 'ParenExpr') and len(kids(n0)) == 1:
+            n0 = kids(n0)[0]
+        return n0.get('kind') == 'CStyleCastExpr' and n0['type']['qualType'] == 'int' and self.slot(kids(n0)[0]) == ('ra', 0)
+
+    def order_offset(self, n):
+        """k if n denotes (order + k): the order is the int local initialised with (int)al->ra[0], or al->ra[0] itself"""
+        n0 = n
+        while n0.get('kind') in ('ImplicitCastExpr', 'ParenExpr', 'ConstantExpr', 'CStyleCastExpr') and len(kids(n0)) == 1:
+            n0 = kids(n0)[0]
+        if n0.get('kind') == 'DeclRefExpr':
+            rid = n0['referencedDecl']['id']
+            if rid in self.order_vars or self.env.get(rid) == ('arg', 0):
+                return 0
+            return None
+        s_ = self.slot(n0)
+        if s_ == ('ra', 0):
+            return 0
+        if n0.get('kind') == 'BinaryOperator' and n0.get('opcode') in ('+', '-'):
+            a, b = kids(n0)
+            base = self.order_offset(a)
+            lit = strip(b)
+            if base is not None and lit.get('kind') in ('IntegerLiteral', 'FloatingLiteral') and float(lit['value']) == int(float(lit['value'])):
+                k = int(float(lit['value']))
+                return base + k if n0['opcode'] == '+' else base - k
+        return None
+
     def expr(self, n):
         n0 = n
         while n0.get('kind') in ('ImplicitCastExpr', 'ParenExpr', 'ConstantExpr') and len(kids(n0)) == 1:
@@ -110,6 +148,9 @@ class FFn:
             return store[s[1]]
         if k == 'BinaryOperator' and n0.get('opcode') in ('+', '-', '*', '/'):
             return ({'+': 'add', '-': 'sub', '*': 'mul', '/': 'div'}[n0['opcode']], self.expr(ks[0]), self.expr(ks[1]))
+        if k == 'BinaryOperator' and n0.get('opcode') == '=' and self.ref(ks[0]) in self.status_vars:
+            self.result_sym = self.expr(ks[1])        # status = gsl_f_e(order, x, &result): result.val is the symbol
+            return self.result_sym
         if k == 'BinaryOperator' and n0.get('opcode') == '=':
             t = self.slot(ks[0])
             v = self.expr(ks[1])
@@ -121,6 +162,8 @@ class FFn:
                 self.env[rid] = v
                 return v
             self.err('assignment to an unknown target', n0)
+        if k == 'MemberExpr' and n0.get('name') == 'val' and self.ref(ks[0]) in self.result_vars and self.result_sym is not None:
+            return self.result_sym
         if k == 'DeclRefExpr':
             rid = n0['referencedDecl']['id']
             if rid in self.env:
@@ -137,6 +180,14 @@ class FFn:
                     and strip(anodes[0]).get('type', {}).get('qualType') == 'int':
                 cal = '%s#%s' % (cal, strip(anodes[0])['value'])
                 anodes = anodes[1:]
+            if self.ordered and cal and cal.startswith('gsl_') and len(anodes) in (2, 3):
+                # gsl_f(order + k, x [, &result]) -> symbol gsl_f@k (x)
+                if len(anodes) == 3:
+                    anodes = anodes[:2]
+                k = self.order_offset(anodes[0])
+                if k is not None:
+                    nm = cal[:-2] if cal.endswith('_e') else cal
+                    return ('call', '%s@%d' % (nm, k), [self.expr(anodes[1])])
             args = [self.expr(a) for a in anodes]
             if cal in LIBM and len(args) == 1:
                 return (LIBM[cal], args[0])
@@ -170,6 +221,12 @@ class FFn:
                 elif q == 'double':
                     if init:
                         self.env[v['id']] = self.expr(init[0])
+                elif self.ordered and q == 'int' and v.get('name') == 'status':
+                    self.status_vars.add(v['id'])
+                elif self.ordered and q == 'gsl_sf_result':
+                    self.result_vars.add(v['id'])
+                elif self.ordered and q == 'int' and init and self.order_offset_init(init[0]):
+                    self.order_vars.add(v['id'])
                 else:
                     self.err('local of type %s' % q, v)
             return
@@ -185,6 +242,17 @@ class FFn:
             if c.get('kind') == 'UnaryOperator' and c.get('opcode') == '!' and strip(kids(c)[0]).get('kind') == 'CallExpr' \
                     and self.callee(strip(kids(c)[0])) == 'check_args' and len(ks) == 2:
                 return
+            if self.ordered:
+                # if (al->derivs && check_const_arg(al, 0, "nu")) { ... }
+                if c.get('kind') == 'BinaryOperator' and c.get('opcode') == '&&' and self.member(kids(c)[0]) == 'derivs' \
+                        and strip(kids(c)[1]).get('kind') == 'CallExpr' and self.callee(strip(kids(c)[1])) == 'check_const_arg' and len(ks) == 2:
+                    self.stmt(ks[1])
+                    return
+                # guards that only return 0: if (!check_bessel_args(...)) return 0;  if (!check_int_arg(...)) return 0;  if (status != GSL_SUCCESS) {eval_error; return 0;}
+                rets = [w for w in self.walk(ks[1]) if w.get('kind') == 'ReturnStmt']
+                writes = [w for w in self.walk(ks[1]) if w.get('kind') == 'BinaryOperator' and w.get('opcode') == '=']
+                if len(ks) == 2 and rets and not writes and all(strip(kids(r)[0]).get('kind') == 'IntegerLiteral' for r in rets):
+                    return
             self.err('if statement other than if (al->derivs) / if (al->hes) / the check_args guard', n)
         if k == 'ReturnStmt':
             e = strip(ks[0])
@@ -194,10 +262,20 @@ class FFn:
             self.err('return without check_result', n)
         self.expr(n)
 
+    def walk(self, n):
+        yield n
+        for c in kids(n):
+            yield from self.walk(c)
+
     def translate(self):
         self.stmt([c for c in kids(self.decl) if c.get('kind') == 'CompoundStmt'][0])
         n = self.nargs
         nh = n * (n + 1) // 2
+        if self.ordered:
+            if self.value is None or sorted(self.d) != [1] or sorted(self.h) != [2] or n != 2:
+                self.err('expected exactly value, derivs[1] and hes[2] for a binding f(order, x)')
+            zero = ('lit', Fraction(0))
+            return self.value, [zero, self.d[1]], [zero, zero, self.h[2]]
         if self.value is None or sorted(self.d) != list(range(n)) or sorted(self.h) != list(range(nh)):
             self.err('not all of value / derivs[0..%d) / hes[0..%d) are assigned on the straight path' % (n, nh))
         return self.value, [self.d[i] for i in range(n)], [self.h[i] for i in range(nh)]
@@ -209,10 +287,10 @@ def emit(decls, regs):
     out = ['/- GENERATED by translators/tr_gsl.py (tr_gsl_formulas.py) from src/gsl/amplgsl.cc. Do not edit: regenerated on every check run. -/',
            'import MpVerif.C16.RExpr', 'namespace MpVerif.Gen.GslFormulas', 'open MpVerif.C16', '']
     names = []
-    for f in ELEMENTARY + SYMBOLIC:
+    for f in ELEMENTARY + SYMBOLIC + ORDERED:
         if f not in decls or f not in nargs:
             raise TranslateError('elementary binding %s is gone' % f)
-        v, d, h = FFn(decls[f], nargs[f]).translate()
+        v, d, h = FFn(decls[f], nargs[f], ordered=(f in ORDERED)).translate()
         nm = 'f_' + ampl[f]
         names.append(nm)
         out.append('def %s : Formulas := {\n  name := "%s",\n  nargs := %d,\n  value := %s,\n  derivs := [%s],\n  hes := [%s] }' %
